@@ -272,6 +272,8 @@ class Evaluator:
             return None
         if len(p) >= 2 and p[-1][:1].isupper() and p[-2][:1].isupper():
             return EnumVal(p[-1])
+        if len(p) >= 2 and p[-1][:1].islower() and p[-2][:1].isupper():
+            return ("fnpath", "::".join(p))  # a function named as a value (Default::default, Vec::new)
         raise Unknown("path %s" % "::".join(p))
 
     def e_paren(self, e, env):
